@@ -16,6 +16,13 @@ func appendStackTrace(e *object.PanErr, src *ast.Source) *object.PanErr {
 		return e
 	}
 
+	// NOTE: constant `_` is shared by all evaluations. Copy it not to leave
+	// stacktrace of this evaluation in errors raised by the following ones
+	if e == object.BuiltInNotImplemented {
+		copied := *e
+		e = &copied
+	}
+
 	// write previous stacktrace first
 	if e.StackTrace != "" {
 		out.WriteString(e.StackTrace + "\n")
